@@ -76,5 +76,26 @@ theorem zero_token_validator_blocks_deposit (info : ValInfo) (a : Asset) (token 
     intro e; rw [e] at h1; exact h1 (by decide)
   simp only [h1, if_false, h3, h2, if_true]
 
+/-! ## the complete list of failure modes of the user operations -/
+
+/-- for EVERY state and argument: when `MsgDelegate`, `MsgUndelegate`, `MsgRedelegate` or `MsgClaimDelegationRewards`
+    fails, its error is one of `userModes` — the caller's own mistakes (amount, unknown asset or validator, no position,
+    too many tokens, onward hop), a bank shortfall (own balance or the shared rewards pool), the distribution module's
+    responses, or one of three arithmetic panics (negative share/coin amount, zero divisor). These last classes are
+    exactly where the known findings of C05 live; nothing else can block a user (proof: AllianceProofs/FailModesUser) -/
+theorem user_operation_failure_modes (op : Op) (w : World) (e : Err)
+    (hop : match op with | .delegate .. | .undelegate .. | .redelegate .. | .claim .. => True | _ => False)
+    (h : (step op w).1 = .error e) : e ∈ userModes := user_op_failure_modes op w e hop h
+
+example : userModes = [.err "no_validator", .err "unknown_asset", .err "no_delegation", .err "insufficient_funds",
+    .err "oracle_exhausted", .err "oracle_mismatch", .panic "neg_dec_coin", .panic "neg_coin", .panic "div_zero",
+    .err "invalid_amount", .err "notfound_asset", .err "empty_denom", .err "insufficient_shares",
+    .err "insufficient_tokens", .err "same_validator", .err "transitive"] := rfl
+
+/-- the share validation every exit goes through is what the source says now (regenerated on every run) -/
+theorem exit_validation_is_the_source (dl : Delegation) (amt : Int) (v : ValInfo) (a : Asset) :
+    Generated.ValidateDelegatedAmount dl amt v a = validateDelegatedAmount dl.shares amt v a :=
+  ArithTie.validateDelegatedAmount_is_source dl amt v a
+
 end C05
 end Alliance
